@@ -28,6 +28,12 @@ type jB struct {
 	F float64        `json:"f"`
 }
 
+type jWide struct {
+	Alpha, Beta, Gamma, Delta, Epsilon, Zeta, Eta, Theta int
+	Name                                                 string `json:"name"`
+	Inner                                                *jA    `json:"inner"`
+}
+
 type jC struct {
 	Name string         `json:"name"`
 	Any  map[string]any `json:"any"`
@@ -115,6 +121,25 @@ func jsonTokenize(doc string) call {
 			fmt.Fprintf(&sb, "%s@%d;", t.Value, t.Depth)
 		}
 		out := sb.String() + errStr(t.Err)
+		return func() string { return out }
+	}}
+}
+
+// jsonTokenizeReuse tokenises several documents with one Tokenizer (Reset between them).
+func jsonTokenizeReuse(docs ...string) call {
+	return call{"json.Tokenizer.Reset(" + strings.Join(docs, " ; ") + ")", func() func() string {
+		var sb strings.Builder
+		t := json.NewTokenizer([]byte(docs[0]))
+		for i := range docs {
+			if i > 0 {
+				t.Reset([]byte(docs[i]))
+			}
+			for t.Next() {
+				fmt.Fprintf(&sb, "%s@%d/%d/%v;", t.Value, t.Depth, t.Index, t.IsKey)
+			}
+			sb.WriteString(errStr(t.Err) + "|")
+		}
+		out := sb.String()
 		return func() string { return out }
 	}}
 }
@@ -220,6 +245,12 @@ var (
 	valTS = func() any { return tS{A: 1, B: "b", L: []int64{1, 2}, M: map[string]int32{"k": 5}} }
 	valTR = func() any { return tR{V: 1, Next: &tR{V: 2}} }
 	valTW = func() any { return tW{A: 1, B: "b", C: []tS{{A: 2, M: map[string]int32{"k": 1}}}} }
+)
+
+var (
+	docWideExact = `{"Alpha":1,"Beta":2,"Gamma":3,"Delta":4,"Epsilon":5,"Zeta":6,"Eta":7,"Theta":8,"name":"n","inner":{"x":1,"s":"s"}}`
+	docWideUpper = `{"ALPHA":1,"BETA":2,"GAMMA":3,"DELTA":4,"EPSILON":5,"ZETA":6,"ETA":7,"THETA":8,"NAME":"n","INNER":{"X":1,"S":"s"}}`
+	docWideMixed = `{"alpha":1,"bETA":2,"unknown":[1,{"a":2}],"gamma":3,"theta":8,"Name":"m","Inner":{"x":2,"S":"t","Next":{"X":3}}}`
 )
 
 var docA = `{"x":1,"next":{"x":2,"s":"in\"ner"},"s":"outer"}`
@@ -331,6 +362,38 @@ func drivers() []driver {
 				{thriftMarshal("W", false, valTW)},
 			}
 		}, 99, 99, nil},
+		{"json-tokenizer-reuse", func() [][]call {
+			return [][]call{
+				{jsonTokenizeReuse(`{"a":[1,{"b":2}]}`, `[[1,[2,{"c":[3]}]],4]`)},
+				{jsonTokenize(`[{"x":[1,2,{"y":{}}]},[[]]]`), jsonTokenize(`{"k":[`)},
+				{jsonTokenizeReuse(`[1,[2`, `{"d":{"e":[1]}}`, `[[[0]]]`)},
+			}
+		}, 3, 4, nil},
+		{"json-decode-fold-warm", func() [][]call {
+			return [][]call{
+				{jsonUnmarshal("Wide/upper", docWideUpper, func() any { return new(jWide) })},
+				{jsonUnmarshal("Wide/mixed", docWideMixed, func() any { return new(jWide) })},
+				{jsonUnmarshal("Wide/upper", docWideUpper, func() any { return new(jWide) }), jsonMarshal("Wide", func() any { return jWide{Alpha: 1, Name: "w"} })},
+			}
+		}, 3, 4, func() []call {
+			return []call{jsonUnmarshal("Wide/exact", docWideExact, func() any { return new(jWide) })}
+		}},
+		{"proto-map-decode-error-warm", func() [][]call {
+			good := mustProto(&pN{V: 5, Tags: map[int32]string{1: "a", 2: "b"}})
+			// map entries: one failing after key and value (wire type 7), one truncated inside the value,
+			// then entries that omit the key / the value (defaults must come out, not leftovers)
+			bad1 := []byte{0x1a, 0x08, 0x08, 0x07, 0x12, 0x02, 'z', 'z', 0x1f, 0x00}
+			bad2 := []byte{0x1a, 0x05, 0x08, 0x09, 0x12, 0x05, 'q'}
+			sparse := []byte{0x08, 0x01, 0x1a, 0x02, 0x08, 0x03, 0x1a, 0x03, 0x12, 0x01, 'v', 0x1a, 0x00}
+			mk := func() any { return new(pN) }
+			return [][]call{
+				{protoUnmarshal("N/bad-entry", bad1, mk), protoUnmarshal("N/sparse", sparse, mk)},
+				{protoUnmarshal("N/sparse", sparse, mk), protoUnmarshal("N/truncated-entry", bad2, mk)},
+				{protoUnmarshal("N", good, mk), protoUnmarshal("N/sparse", sparse, mk)},
+			}
+		}, 3, 4, func() []call {
+			return []call{protoUnmarshal("N", mustProtoOnce(), func() any { return new(pN) })}
+		}},
 		{"mixed", func() [][]call {
 			return [][]call{
 				{jsonMarshal("C", valC), protoSize("M", valM)},
